@@ -81,7 +81,7 @@ Example C26_nonvacuous :
     Some [[0;0;0]; [0;0;1]; [0;1;1]; [0;1;0]; [0;2;0]; [0;2;1];
           [1;2;1]; [1;2;0]; [1;1;0]; [1;1;1]; [1;0;1]; [1;0;0]].
 Proof.
-  split; [split; [discriminate|repeat constructor]|]. split; reflexivity.
+  split; [split; [discriminate|repeat constructor]|]. split; [reflexivity|vm_compute; reflexivity].
 Qed.
 
 (* the hypotheses of C26_turnaround are met: between t=5 and t=6 axis 0 changes, axes 1 and 2 stay *)
@@ -96,4 +96,4 @@ Proof. eexists. split; [vm_compute; reflexivity|]. vm_compute. repeat split; try
 Example C26_mixed_nonvacuous :
   snake_cyclers [2; 2; 2] [false; false; true] =
     Some [[0;0;0]; [0;0;1]; [0;1;1]; [0;1;0]; [1;0;0]; [1;0;1]; [1;1;1]; [1;1;0]].
-Proof. reflexivity. Qed.
+Proof. vm_compute. reflexivity. Qed.
